@@ -205,3 +205,33 @@ def conditions_ctx(prog, fn, bb, slicer):
         out.extend(conditions(parent, cb, slicer))
         f = parent
     return out
+
+
+def return_conditions(fn, slicer):
+    """decisions that hold whenever fn returns normally (common to all its return blocks): a function that `exit`s or
+    panics unless a check passes guarantees that check to everything after a call to it"""
+    from .value import canon
+    common = None
+    keep = {}
+    for rb in fn.return_blocks():
+        cur = {}
+        for c in conditions(fn, rb, slicer):
+            k = (c.kind, canon(c.subject if c.subject is not None else c.value), c.outcome if not isinstance(c.outcome, frozenset) else tuple(sorted(c.outcome)))
+            cur[k] = c
+        common = set(cur) if common is None else (common & set(cur))
+        keep.update(cur)
+    return [keep[k] for k in (common or ())]
+
+
+def conditions_gated(prog, fn, bb, slicer):
+    """conditions of bb plus those established by gate functions: workspace functions called on every path to bb
+    (their call block dominates bb) that only return when a check passed"""
+    out = list(conditions(fn, bb, slicer))
+    for c in fn.calls:
+        if c.indirect or c.bb == bb or not fn.dominates(c.bb, bb):
+            continue
+        g = prog.fns.get(c.res or c.name or '')
+        if g is None or g.kind == 'Closure' or g.path == fn.path:
+            continue
+        out.extend(return_conditions(g, slicer))
+    return out
